@@ -55,45 +55,53 @@ mem: 14
 */
 /*@unit
 name: calloc.off
-define: U_CALLOC, U_LEVEL_OFF
+define: U_CALLOC, MEM_CALLOC_ELEM=24, U_LEVEL_OFF
 debug: 5
 src: mem.c
 enforce: spifmem_calloc
 replace: memrec_add_var
-backend: z3,sat
+backend: sat,z3
+tier: B
+bound: element size fixed to 24 bytes (count symbolic up to 65535, table size symbolic)
 timeout: 200
 mem: 8
 */
 /*@unit
 name: calloc.on.shape
-define: U_CALLOC, U_LEVEL_ON, MEM_PART=1
+define: U_CALLOC, MEM_CALLOC_ELEM=24, U_LEVEL_ON, MEM_PART=1
 debug: 5
 src: mem.c
 enforce: spifmem_calloc
 replace: memrec_add_var
-backend: z3,sat
+backend: sat,z3
+tier: B
+bound: element size fixed to 24 bytes (count symbolic up to 65535, table size symbolic)
 timeout: 280
 mem: 14
 */
 /*@unit
 name: calloc.on.records
-define: U_CALLOC, U_LEVEL_ON, MEM_PART=2
+define: U_CALLOC, MEM_CALLOC_ELEM=24, U_LEVEL_ON, MEM_PART=2
 debug: 5
 src: mem.c
 enforce: spifmem_calloc
 replace: memrec_add_var
-backend: z3,sat
+backend: sat,z3
+tier: B
+bound: element size fixed to 24 bytes (count symbolic up to 65535, table size symbolic)
 timeout: 280
 mem: 14
 */
 /*@unit
 name: calloc.on.nodup
-define: U_CALLOC, U_LEVEL_ON, MEM_PART=3
+define: U_CALLOC, MEM_CALLOC_ELEM=24, U_LEVEL_ON, MEM_PART=3
 debug: 5
 src: mem.c
 enforce: spifmem_calloc
 replace: memrec_add_var
-backend: z3,sat
+backend: sat,z3
+tier: B
+bound: element size fixed to 24 bytes (count symbolic up to 65535, table size symbolic)
 timeout: 280
 mem: 14
 */
@@ -171,7 +179,7 @@ src: mem.c
 enforce: spifmem_realloc
 replace: memrec_add_var, memrec_rem_var, memrec_chg_var
 backend: sat
-timeout: 280
+timeout: 600
 mem: 14
 */
 /*@unit
@@ -267,6 +275,7 @@ bound: tracker table of exactly 2 records (cnt <= 3 over the units free.on.cnt0.
 unwind: 8
 timeout: 400
 mem: 14
+quick: no
 */
 /*@unit
 name: free.on.cnt3
